@@ -112,7 +112,9 @@ WellFormed(m) == /\ Len(m.what) = 4 /\ IsBytes(m.what)
                       LET f == m.fields[i] IN
                       /\ IsBytes(f.name) /\ (\A j \in 1..Len(f.name) : f.name[j] # 0)
                       /\ Len(f.type) = 4 /\ IsBytes(f.type) /\ f.type # TC_ANY
-                      /\ Len(f.items) >= 1                                        \* a field never has zero items: it is removed with its last item
+                      \* Len(f.items) = 0 is possible: RemoveData() removes a field with its last item from the Message it is called on, but a
+                      \* field shared into another Message (ShareName: "changes to the field in one Message will be seen in the other") stays
+                      \* there with zero items.  A field with zero items is not the same as no field: it is counted, named, typed and serialised.
                       /\ \A j \in 1..Len(f.items) : ItemOK(Kind(f.type), f.items[j])
 
 \* what survives serialisation: everything but the non-flattenable fields, at every nesting level
@@ -209,7 +211,7 @@ PFields(b, p, hi, n) ==
              ELSE LET tc == SubSeq(b, q, q + 3) dl == Word(b, q + 4) d == q + 8 IN
                   IF dl < 0 \/ dl > hi - (d - 1) THEN Bad
                   ELSE LET it == PItems(b, tc, d, d + dl - 1) IN
-                       IF ~it.ok \/ Len(it.items) = 0 THEN Bad                  \* a field always has at least one item
+                       IF ~it.ok THEN Bad                                         \* (zero items is a legitimate field state, see WellFormed)
                        ELSE LET r == PFields(b, d + dl, hi, n - 1) IN
                             IF r.ok THEN [ok |-> TRUE, fields |-> <<[name |-> SubSeq(b, p + 4, q - 2), type |-> tc, items |-> it.items]>> \o r.fields, p |-> r.p]
                             ELSE Bad
@@ -268,6 +270,9 @@ ApplyStep(m, s) ==
                             IF hit THEN [m |-> WithItems(m, x, [m.fields[x].items EXCEPT ![s.i + 1] = ItemOf(s)]), ok |-> TRUE]
                             ELSE IF s.a THEN AddItem(m, s, FALSE)
                             ELSE [m |-> m, ok |-> FALSE]
+     \* a field with zero items, as left behind by  donor.Add(n, x); donor.Add(n, y); donor.ShareName(n, m); donor.RemoveData(n, 0) twice
+     [] s.op = "ZeroField" -> IF FieldIndex(m, s.n) # 0 THEN [m |-> m, ok |-> FALSE]
+                              ELSE [m |-> [m EXCEPT !.fields = Append(@, [name |-> s.n, type |-> s.t, items |-> <<>>])], ok |-> TRUE]
      [] s.op = "RemoveName" -> LET x == FieldIndex(m, s.n) IN
                             IF x = 0 THEN [m |-> m, ok |-> FALSE] ELSE [m |-> WithoutField(m, x), ok |-> TRUE]
 
@@ -301,7 +306,8 @@ FieldDetour(f, d) ==
        pre(j) == [op |-> "Prepend", n |-> f.name, t |-> f.type, v |-> val(j)]
        rem(i) == [op |-> "Remove", n |-> f.name, i |-> i]
        rep(i, j, a) == [op |-> "Replace", n |-> f.name, t |-> f.type, v |-> val(j), i |-> i, a |-> a]
-   IN CASE d = 1 -> [j \in 1..(n - 1) |-> add(j + 1)] \o <<pre(1)>>
+   IN CASE n = 0 -> <<[op |-> "ZeroField", n |-> f.name, t |-> f.type]>>
+        [] d = 1 -> [j \in 1..(n - 1) |-> add(j + 1)] \o <<pre(1)>>
         [] d = 2 -> <<add(1), add(1), add(1)>> \o [j \in 1..k |-> add(j)] \o <<rem(0), rem(0), rem(0)>> \o [j \in 1..(n - k) |-> add(k + j)]
         [] d = 3 -> [j \in 1..(n - 1) |-> add(1)] \o [j \in 1..(n - 1) |-> rep(j - 1, j, FALSE)] \o <<rep(n - 1, n, TRUE)>>
         [] d = 4 -> <<add(1), add(1), add(1), rem(2), rem(1)>> \o [j \in 1..(n - 1) |-> add(j + 1)]
@@ -371,7 +377,7 @@ PyNativeOK(m) == PyOK(m) /\ NoSNaNFloats(Norm(m))
 RECURSIVE F38(_)
 F38(m) == \E i \in 1..Len(m.fields) :
              LET f == m.fields[i] k == Kind(f.type) IN
-             \/ k = "raw" /\ Len(f.items[Len(f.items)]) = 0
+             \/ k = "raw" /\ Len(f.items) > 0 /\ Len(f.items[Len(f.items)]) = 0
              \/ k = "message" /\ \E j \in 1..Len(f.items) : F38(f.items[j])
 RECURSIVE NonAsciiName(_)
 NonAsciiName(m) == \E i \in 1..Len(m.fields) :
